@@ -180,6 +180,19 @@ CHECKS = {
         "downsampling or a full queue; throughput present and identical with and without downsampling.",
         "Trusted: as C01, plus the emulation of BenchmarkCoordinator's bulk_add hand-over by the environment.",
     ),
+    "C09": (
+        "model_checking",
+        "fault injection x stateless deviation-bounded schedule exploration of complete simulated races; environment faults (worker death, "
+        "user cancellation) are transitions available at every scheduling point; race control emulated around the real BenchmarkCoordinator",
+        "DESIGN.md §4 C09",
+        "4 schedule shapes/layouts x faults {API error, unsuccessful result (on-error=abort), connection error (continue), parameter source "
+        "raises, runner raises: at first/middle/last request; driver metrics store raises on the n-th write; track-preparation task raises; "
+        "worker process dies / user cancels at every scheduling point} x all schedules within 1 deviation (thorough 2). Oracle: race "
+        "control's first terminal message is BenchmarkFailure (cancel: cancelled), never completion, within 40 virtual seconds of the fault; "
+        "no results computed, stored in race.json or printed; shutdown terminates every executor thread without deadlock.",
+        "Trusted: as C01, plus the 40-line emulation of BenchmarkActor's handlers around the real coordinator. A worker that dies after "
+        "having finished all its work is not counted as a fault during the race.",
+    ),
 }
 
 NOT_YET = {}
